@@ -66,12 +66,21 @@ class RegConcCheck(PropCheck):
 
     def problems(self, r):
         probs = rc.monitors(r["scenario"], r["impl"]).get(self.pid, [])
+        if r["status"].startswith("END crash rc=-"):
+            # the process running the real code was killed by a signal (SIGSEGV, SIGABRT, ...) under this
+            # schedule, where the model runs to completion: a concrete failing input whatever the property
+            sig = r["status"].split("rc=-")[1].split()[0]
+            probs = probs + ["the process running the real registry under this scenario was killed by signal %s (the model runs to completion)%s" % (
+                sig, "; the scenario has a pre-existing disposition: " + "; ".join(l for l in r["scenario"] if l.startswith("setup foreign")) if any(l.startswith("setup foreign") for l in r["scenario"]) else "")]
         if self.pid == "C18" and not r["status"].startswith("END done"):
             probs = probs + ["the scenario did not run to completion: %s — mutators wait for each other although every delivery has finished" % r["status"]]
         return probs
 
     def replay(self, payload):
-        sc = [l for l in payload["scenario"] if not l.startswith("seed")] + ["schedule " + " ".join(payload["schedule"])]
+        if payload["schedule"]:
+            sc = [l for l in payload["scenario"] if not l.startswith("seed")] + ["schedule " + " ".join(payload["schedule"])]
+        else:   # the run died before it could report its schedule: the seed reproduces it
+            sc = list(payload["scenario"])
         r = rc.run_one(sc)
         probs = self.problems(r)
         d = core.first_diff(r["model"], r["impl"])
